@@ -3,6 +3,7 @@
 then every unreached block of v3 (file:line-range + first source line)."""
 import sys, collections, os, re
 prof, repo = sys.argv[1], sys.argv[2]
+json_into = sys.argv[4] if len(sys.argv) > 4 and sys.argv[3] == '--json' else None
 blocks = {}
 for ln in open(prof):
     if ln.startswith('mode:'): continue
@@ -19,6 +20,25 @@ for (f, *_), (n, cnt) in blocks.items():
     pk[p][0] += n
     if cnt: pk[p][1] += n
 tot = [sum(v[0] for v in pk.values()), sum(v[1] for v in pk.values())]
+if json_into:
+    import json
+    unreached = []
+    for k in sorted(blocks):
+        n, cnt = blocks[k]
+        if cnt or n == 0: continue
+        f = k[0].replace('github.com/zmap/zlint/', '')
+        if f.startswith('v3/lints/') or f.startswith('v3/util/'):
+            unreached.append("%s:%d-%d" % (f, k[1], k[3]))
+    ev = json.load(open(json_into))
+    ev.setdefault('coverage', {})['statement_reach'] = {
+        'what': 'Go statement coverage (-cover -covermode=atomic -coverpkg=github.com/zmap/zlint/v3/...) of the zlint packages, summed over every worker process of this run: statements the monitored workload executed / statements compiled in',
+        'zlint_statements_executed': tot[1], 'zlint_statements_total': tot[0],
+        'per_package': {p.replace('github.com/zmap/zlint/v3', 'v3'): {'executed': v[1], 'total': v[0]} for p, v in sorted(pk.items())},
+        'unreached_blocks_in_lints_and_util': unreached,
+    }
+    json.dump(ev, open(json_into, 'w'), indent=1)
+    print("statement reach merged into %s: %d/%d zlint statements executed, %d unreached blocks in lints+util" % (json_into, tot[1], tot[0], len(unreached)))
+    sys.exit(0)
 print("statement reach of zlint packages under this workload: %d/%d = %.1f%%" % (tot[1], tot[0], 100.0 * tot[1] / max(1, tot[0])))
 for p in sorted(pk):
     t, h = pk[p]
